@@ -8,6 +8,8 @@ import (
 	"k8s.io/apimachinery/pkg/runtime"
 
 	xpv1 "github.com/crossplane/crossplane-runtime/apis/common/v1"
+
+	v1 "github.com/crossplane/crossplane/apis/apiextensions/v1"
 )
 
 // VerifC10ConversionKeys returns the key set (from, to, format) of the unexported
@@ -34,3 +36,10 @@ func VerifC10ConversionKeys() [][3]string {
 func VerifC10MergeReplace(path string, current, desired runtime.Object, mo *xpv1.MergeOptions) error {
 	return mergeReplace(path, current, desired, mo)
 }
+
+// VerifC10PatchTypesFromXR / VerifC10PatchTypesToXR expose the patch-type filters of the render
+// loops (composite.go) for the C10 table dump.
+func VerifC10PatchTypesFromXR() []v1.PatchType { return patchTypesFromXR() }
+
+// VerifC10PatchTypesToXR: see VerifC10PatchTypesFromXR.
+func VerifC10PatchTypesToXR() []v1.PatchType { return patchTypesToXR() }
